@@ -216,7 +216,40 @@ func genVersion(t *rapid.T) (string, string, bool) {
 	n := func(label string) int {
 		return rapid.OneOf(rapid.IntRange(0, 12), rapid.SampledFrom([]int{99, 1000, 65536, 2147483647})).Draw(t, label)
 	}
-	switch pickU(t, "vclass", 9) {
+	switch pickU(t, "vclass", 10) {
+	case 9:
+		// a version that collides with a compatible one when the three numbers are
+		// packed into one integer with too narrow fields (base b): A.B-k.C+k*b,
+		// A-k.B+k*b.C, A-1.B+b-1.C+b
+		comp := [][3]uint64{{1, 0, 0}, {0, 5, 8}, {0, 5, 9}, {0, 5, 10}, {0, 5, 11}, {0, 5, 12}}
+		bases := []uint64{10, 16, 100, 128, 256, 1000, 1024, 10000, 32768, 65536, 100000, 1 << 20, 1 << 24, 1 << 31, 1 << 32}
+		for {
+			abc := comp[pickU(t, "aliasof", len(comp))]
+			b := bases[pickU(t, "base", len(bases))]
+			k := uint64(1 + pickU(t, "k", 2))
+			var v string
+			switch pickU(t, "borrow", 3) {
+			case 0:
+				if abc[1] < k {
+					continue
+				}
+				v = fmt.Sprintf("%d.%d.%d", abc[0], abc[1]-k, abc[2]+k*b)
+			case 1:
+				if abc[0] < k {
+					continue
+				}
+				v = fmt.Sprintf("%d.%d.%d", abc[0]-k, abc[1]+k*b, abc[2])
+			default:
+				if abc[0] < 1 {
+					continue
+				}
+				v = fmt.Sprintf("%d.%d.%d", abc[0]-1, abc[1]+b-1, abc[2]+b)
+			}
+			if len(v) > 16 {
+				continue
+			}
+			return v, "numeric-alias", false
+		}
 	case 8: // a compatible version, a NUL, then garbage in the padding
 		base := rapid.SampledFrom([]string{"1.0.0", "0.5.8", "0.5.9", "0.5.10", "0.5.11", "0.5.12"}).Draw(t, "base")
 		g := rapid.SliceOfN(rapid.SampledFrom([]byte("0123456789.-+rc\x01\xff")), 1, 16-len(base)-1).Draw(t, "garbage")
